@@ -473,9 +473,15 @@ def r4_comparisons(prog, rep: Report, ss: Cls):
             return a if (A, B) == ("A", "B") else b
         env = {fn.self_name: A, fn.params[1]: B}
 
+        loc: Dict[str, bool] = {}       # named intermediate truth values (`is_subset = self <= other`)
+
         def ev(e) -> bool:
             if isinstance(e, ast.Constant) and isinstance(e.value, bool):
                 return e.value
+            if isinstance(e, ast.Name) and e.id in loc:
+                return loc[e.id]
+            if isinstance(e, ast.IfExp):
+                return ev(e.body) if ev(e.test) else ev(e.orelse)
             if isinstance(e, ast.BoolOp):
                 vals = [ev(x) for x in e.values]
                 return all(vals) if isinstance(e.op, ast.And) else any(vals)
@@ -531,6 +537,10 @@ def r4_comparisons(prog, rep: Report, ss: Cls):
                     r = body(st.body if ev(st.test) else st.orelse)
                     if r is not None:
                         return r
+                    continue
+                if isinstance(st, ast.Assign) and len(st.targets) == 1 and isinstance(st.targets[0], ast.Name) \
+                        and st.targets[0].id not in env:
+                    loc[st.targets[0].id] = ev(st.value)
                     continue
                 raise NotAFormula(f"statement {type(st).__name__} in {fn.name}")
             return None
